@@ -442,8 +442,9 @@ def replay(case, ci, tmpl, tools, workdir, variant):
         elif kind == "branch":
             if not re.fullmatch(r"[A-Za-z0-9._+-]+", op["name"]):
                 raise MachineryError(f"branch name {op['name']!r} outside the harness' safe alphabet")
-            pre.append({"branch": f"git branch {op['name']}",                       # refs/heads/<tag name>
-                        "current": f"git checkout -q -b {op['name']}",              # ... with HEAD attached to it
+            # plumbing only: porcelain (`git branch`, `git checkout -b`) refuses or guesses once a short name is ambiguous
+            pre.append({"branch": f"git update-ref refs/heads/{op['name']} HEAD",   # refs/heads/<tag name>
+                        "current": f"git update-ref refs/heads/{op['name']} HEAD && git symbolic-ref HEAD refs/heads/{op['name']}",
                         "remote": f"git update-ref refs/remotes/origin/{op['name']} HEAD"}[op["where"]])
             ev = {"op": "branch", "name": op["name"], "where": op["where"]}
         elif kind == "touch":
@@ -763,7 +764,7 @@ def run(ctx):
         raise MachineryError("vacuous: no tagging history in which two refs share one tag object")
 
     # ---------------------------------------------------------------- 2. replay against the real binary
-    budget = int(os.environ.get("VERIF_C20_MAX", "0")) or (9000 if thorough else 750)
+    budget = int(os.environ.get("VERIF_C20_MAX", "0")) or (8000 if thorough else 750)
     order = list(range(len(cases)))
     if len(order) > budget:
         # The long simulated histories are always replayed.  The breadth-first cases are stratified by the SHAPE of
